@@ -28,6 +28,21 @@ pub fn all_contexts() -> Vec<CtxElem> {
     for n in ["math", "mi", "mo", "mtext", "annotation-xml", "mrow"] {
         v.push(CtxElem { ns: "math".into(), local: n.into(), attrs: vec![] });
     }
+    // names that mean something to the fragment algorithm in one namespace, used in another
+    for n in [
+        "form", "template", "select", "table", "tr", "td", "title", "textarea", "script", "style", "html", "body", "head", "frameset",
+        "plaintext", "noscript", "caption", "colgroup", "tbody", "option", "p", "foreignObject", "annotation-xml", "mi",
+    ] {
+        v.push(CtxElem { ns: "svg".into(), local: n.into(), attrs: vec![] });
+        v.push(CtxElem { ns: "math".into(), local: n.into(), attrs: vec![] });
+    }
+    for n in ["svg", "math", "foreignObject", "foreignobject", "desc", "mi", "annotation-xml", "mglyph", "x-custom", "search", "selectedcontent"] {
+        v.push(CtxElem { ns: "html".into(), local: n.into(), attrs: vec![] });
+    }
+    for e in ["text/html;charset=utf-8", "Text/HTML;", "text/htmlx", " text/html", "application/xhtml+xml;q=1", "TEXT/HTML", ""] {
+        v.push(CtxElem { ns: "math".into(), local: "annotation-xml".into(), attrs: vec![("encoding".into(), e.into())] });
+        v.push(CtxElem { ns: "svg".into(), local: "annotation-xml".into(), attrs: vec![("encoding".into(), e.into())] });
+    }
     v.push(CtxElem {
         ns: "math".into(),
         local: "annotation-xml".into(),
